@@ -138,6 +138,7 @@ type c12Restart struct {
 	ProvisionErr string   `json:"provision_err"`
 	Vector       string   `json:"vector"`
 	TmpAfter     []string `json:"tmp_after_provision"`
+	OtherAfter   []string `json:"other_after_provision"`
 	IDsBefore    []string `json:"ids_before"`
 	IDsAfter     []string `json:"ids_after"`
 	Panic        string   `json:"panic"`
@@ -156,7 +157,7 @@ func c12RestartChild(dir string) int {
 			return
 		}
 		vsched.Drain()
-		r.IDsAfter, r.TmpAfter, _ = ListDir(dir)
+		r.IDsAfter, r.TmpAfter, r.OtherAfter = ListDir(dir)
 		var out []string
 		for _, pr := range c.probes {
 			out = append(out, w.Lookup(pr, world.Chain(pr, c.p.CA, c.p.Root)).String())
@@ -306,6 +307,9 @@ func RunC12(tier string, args []string) int {
 				chk.Violation("C12|loaded-data-not-a-complete-accepted-crl|"+j.hist,
 					fmt.Sprintf("after a crash at effect point %d of history %s the restarted validator treats the location as loaded with verdicts [%s] for serials %v; allowed: not loaded, or %v", j.k, j.hist, r.Vector, c12Serials, al), rep)
 			}
+		}
+		if len(r.OtherAfter) > 0 {
+			chk.Violation("C12|stray-entries-survive-startup|"+j.hist, fmt.Sprintf("crash at point %d of %s: work_dir entries %v (neither a store directory nor matched by the startup sweep) remain after Provision", j.k, j.hist, r.OtherAfter), rep)
 		}
 		if len(r.TmpAfter) > 0 {
 			chk.Violation("C12|temp-artefacts-survive-startup|"+j.hist, fmt.Sprintf("crash at point %d of %s: temporary artefacts %v remain after Provision", j.k, j.hist, r.TmpAfter), rep)
